@@ -1,5 +1,8 @@
 package p
 
-func helperUsedByNobody() int { return onlyTest() }
+// exported, hence used (rule 1.2): the only user of onlyTest and, through it, of counter
+func UseOnly() int { return onlyTest() }
 
-var sink = Exported()
+func helperUsedByNobody() int { return nowhere() }
+
+var Sink = Exported()
